@@ -1,6 +1,6 @@
 (* ExecEst.v -- binary64 entry point of the estimated-time-network checker (C15). *)
 From Coq Require Import ZArith List Bool Floats.
-From AltModel Require Import Num TrackNet EstNet.
+From AltModel Require Import Num TrackNet EstNet EstUpdate.
 Import ListNotations.
 
 Notation enodef := (enode (F:=float)).
@@ -8,3 +8,11 @@ Notation enodef := (enode (F:=float)).
 (* outcome tag 0, then one boolean per conjunct of [est_checks] *)
 Definition x_est_ok (net : list link) (origs dests : list nat) (nodes : list enodef) (cert : list ecert)
   : list out := OZ 0 :: map OB (est_checks net origs dests nodes cert).
+
+(* the two shortest-path passes on the node array make_est_times hands them (hook H3): per node the scheduled
+   time, the duration and distance to the next node and the four links, after both passes *)
+Definition x_update_times (fuel : N) (nodes : list enodef) (set : list bool) (t0 : float) : list out :=
+  res_outs (update_times (N.to_nat fuel) nodes set t0)
+    (fun ns => OZ (Z.of_nat (length ns)) ::
+       flat_map (fun n => [OF (n_ts n); OF (n_ttn n); OF (n_dist n); OZ (Z.of_nat (n_next n)); OZ (Z.of_nat (n_nexta n));
+                           OZ (Z.of_nat (n_prev n)); OZ (Z.of_nat (n_preva n))]) ns).
